@@ -11,7 +11,7 @@ Section Forms.
   Notation "0" := c0. Notation "1" := c1.
   Infix "+" := cadd. Infix "*" := cmul. Infix "-" := csub.
   Notation N n := (kz c0 c1 cadd cmul copp n%Z).
-  (* every form takes all ring operations as parameters, used or not *)
+  (* every form takes all ring operations as arguments, used or not *)
   Notation USE := (c0, c1, cadd, cmul, csub, copp).
 
   Definition CF_0_0 (q1 q2 q3 r1 r2 r3 m : C) : C :=
